@@ -33,6 +33,7 @@ def jobs(tier):
         extra += [('trees', n, 2 if tier == 'quick' else 3, tier, sh, ns) for sh in range(ns)]
     extra += [j + (tier,) for j in leafspell.jobs() + inlinespell.jobs()]
     extra += [('deep', i, tier) for i in range(len(LDEEP))]
+    extra += [('nest', n, tier) for n in (31, 32, 33, 63, 64, 65, 98, 99, 100, 101)]
     if tier == 'quick':
         return [(i, None, k, tier) for i in range(len(L))] + extra
     return [(i, j, k, tier) for i in range(len(L)) for j in range(len(L))] + [(i, None, 1, tier) for i in range(len(L))] + extra
@@ -242,6 +243,13 @@ def run_job(job):
                     continue
                 run_text(r, md[:-1].split('\n'), job[3])
         r.sample(dict(space=job[0], family=job[1]), 1)
+        return r
+    if job[0] == 'nest':
+        # texts that are already nested n levels deep (thresholds of a depth guard would show when one more level is added)
+        n = job[1]
+        for text in ('> ' * n + 'a', '- ' * n + 'a', '> - ' * (n // 2) + 'a', '1. ' * n + 'a', '> ' * n + '# h\n' + '> ' * n + 'p'):
+            run_text(r, text.split('\n'), job[2])
+        r.sample(dict(space='deep nesting', levels=n), 1)
         return r
     if job[0] == 'deep':
         k = BOUNDS[job[2]] + 1
